@@ -2,7 +2,7 @@
    Instance obligation over the tables regenerated from the current tree (Gen.MMData from lsp.json, Gen.PkgData from
    the imported package), plus its meaning through the reflection lemmas of LSP.ImageThy, plus the ∀-metamodel facts
    about the flattening specification. *)
-From LSP Require Import Base MM Sem Image ImageThy.
+From LSP Require Import Base MM Sem Image ImageThy Catalog.
 From Gen Require Import MMData PkgData.
 
 Theorem C04_image : W_img mm Sg alias_objects plain_classes = true.
@@ -22,6 +22,27 @@ Proof. exact (W_img_enums mm Sg alias_objects plain_classes C04_image). Qed.
 Theorem C04_aliases : forall a, In a (aliases mm) -> alias_ok mm Sg alias_objects plain_classes a = true.
 Proof. exact (W_img_aliases mm Sg alias_objects plain_classes C04_image). Qed.
 
+(* anonymous 'and' / literal types that only messages use (registration options, params, results): the class the catalogue names
+   for them is the image of the merged property list (same per-attribute rule: smatch at SLitCls) *)
+Definition anon_ty (t : ty) : bool := match t with TAnd _ | TLit (_ :: _) => true | _ => false end.
+Definition anon_ok (t : option ty) (p : option pty) : bool :=
+  match t with
+  | Some t' => if anon_ty t' then match p with Some p' => smatch mm Sg alias_objects SM_FUEL (py_of mm PY_FUEL t') p' | None => false end else true
+  | None => true end.
+Definition row_of (m : string) : option Catalog.catrow := find (fun r => String.eqb (Catalog.cm_method r) m) catalogue.
+Definition anon_message_types_bad : list string :=
+  flat_map (fun r => match row_of (r_method r) with
+                     | Some row => if anon_ok (r_regopts r) (Catalog.cm_regopts row) && anon_ok (r_params r) (Catalog.cm_params row) then [] else [r_method r]
+                     | None => [r_method r] end) (requests mm)
+  ++ flat_map (fun n => match row_of (n_method n) with
+                     | Some row => if anon_ok (n_regopts n) (Catalog.cm_regopts row) && anon_ok (n_params n) (Catalog.cm_params row) then [] else [n_method n]
+                     | None => [n_method n] end) (notifications mm).
+Theorem C04_anonymous_message_types : anon_message_types_bad = [].
+Proof. vm_compute. reflexivity. Qed.
+Example C04_anonymous_message_types_nonvacuous :
+  existsb (fun r => match r_regopts r with Some t => anon_ty t | None => false end) (requests mm) = true.
+Proof. vm_compute. reflexivity. Qed.
+
 (* specification side, for every metamodel: flattening yields unique names and the nearest (own) declaration wins *)
 Theorem C04_flat_names_unique : forall name, NoDup (map p_name (flat mm name)).
 Proof. exact (flat_names_unique mm). Qed.
@@ -39,5 +60,6 @@ Print Assumptions C04_image.
 Print Assumptions C04_structures.
 Print Assumptions C04_enumerations.
 Print Assumptions C04_aliases.
+Print Assumptions C04_anonymous_message_types.
 Print Assumptions C04_flat_names_unique.
 Print Assumptions C04_flat_own_wins.
